@@ -383,13 +383,15 @@ def run_module(case):
     try:
         if case["via"] == "pickle":
             fn = os.path.join(tmp, "m.pkl")
+            dev = "cpu" if case["seed"] % 2 else None  # both code paths
             ok, _ = guarded(res, f"C19/save_pickle_fails/{mod_kind}",
-                            serialize.save_pickle, fn, m)
+                            serialize.save_pickle, fn, m, dev)
             if not ok:
                 return res
             graphdef, _ = nnx.split(m)
             ok, m2 = guarded(res, f"C19/load_pickle_fails/{mod_kind}",
-                             serialize.load_pickle, fn, graphdef)
+                             serialize.load_pickle, fn, graphdef,
+                             "cpu" if (case["seed"] // 2) % 2 else None)
             if not ok:
                 return res
             res.see("module_round_trips")
